@@ -1,0 +1,12 @@
+//go:build verif
+
+// Contracts for package goat, read by /verif's goatvc (comment-only; no executable code).
+// Syntax: see /verif/DESIGN.md section 4.
+package goat
+
+//@ func goat.parseGrpcTimeout
+//@   nopanic[C08.parse_nopanic C12.nopanic]
+//@   ensures[C08.grammar_exact]        G(timeout) ==> result.1 && result.0 == timeoutNs(timeout)
+//@   ensures[C08.malformed_ignored]    !DU(timeout) ==> !result.1
+//@   ensures[C08.overlong_not_misread] DU(timeout) && result.1 ==> result.0 == timeoutNs(timeout)
+//@   ensures[C08.never_negative]       result.1 ==> result.0 >= 0
